@@ -3,6 +3,8 @@
 A case is one whole history over a small world of caches:
   {'cls': 'LRI'|'LRU', 'max': n, 'om': None|[a, b], 'km': 's'|'n', 'nk': n_keys,
    'init': None|[[k, v], ...], 'ops': [[name, cache_index, args...], ...]}
+on_miss [a, b] is the function key k -> value a*k+b; [a, b, ke, ve] is the same function except that it raises
+KeyError for the keys in ke and ValueError for the keys in ve.
 Keys and values are small naturals in the case; the runner turns them into Python objects:
   km 's': key k -> 'k<k>';  km 'n': key k -> k / float(k) / bool(k) (== - and hash-equal aliases);
   value 0 -> None, value v -> v;  on_miss [a, b] is the function key k -> value a*k+b.
@@ -98,19 +100,24 @@ class Ref:
         del self.vals[k], self.stamp[k]
 
     def lookup(self, k):
-        """-> (answered, value, on_miss calls)"""
+        """-> (answered, value, on_miss calls, exception class raised by on_miss or None).
+        A lookup that does not find the key is a miss whatever on_miss then does."""
         if k in self.vals:
             self.h += 1
             if self.lru:
                 self.stamp[k] = self.clock
                 self.clock += 1
-            return True, self.vals[k], []
+            return True, self.vals[k], [], None
         self.m += 1
         if self.om is not None:
+            if len(self.om) > 2 and k in self.om[2]:
+                return False, None, [k], 'KeyError'
+            if len(self.om) > 2 and k in self.om[3]:
+                return False, None, [k], 'ValueError'
             v = self.om[0] * k + self.om[1]
             self.assign(k, v)
-            return True, v, [k]
-        return False, None, []
+            return True, v, [k], None
+        return False, None, [], None
 
 
 class C02(Property):
@@ -119,18 +126,18 @@ class C02(Property):
     THOROUGH_BUDGET_S = 600
     RULE = ('a case is one whole history of dict-API calls (item get/set/del, get, setdefault, update with '
             'mapping/pairs/iterator/self/kwargs, |=, pop, popitem, clear, copy, in, len, iteration, ==/!= against '
-            'dicts and other caches) on an LRI or LRU with max_size 1-5 (8 in thorough), on_miss None or k->a*k+b, '
+            'dicts and other caches) on an LRI or LRU with max_size 1-5 (8 in thorough), on_miss None, k->a*k+b, or that function raising KeyError / ValueError for chosen keys, '
             'optionally constructor values, over max_size+1..+3 keys (strings, or the aliases 1/1.0/True), ended by a '
             'probe that inserts max_size fresh keys into every cache so that the eviction order becomes visible; '
             'every cache of the world is dumped (items/keys/values/iter/len/in/counters/max_size/on_miss) after every '
             'call. Exhaustive: all histories of <=2 calls over a 38-call alphabet on 3 keys x max_size 1-3 x both '
-            'classes x with/without on_miss; 18k (thorough 60k) sampled 3-5-call histories on pre-filled caches; '
+            'classes x on_miss none / total / raising; 14k (thorough 60k) sampled 3-5-call histories on pre-filled caches; '
             'adversarial scripts (reassign-oldest, lookup-oldest, |=/update overflow with duplicates, copy after '
             'reordering then diverge, remove-then-refill, == with equal-length dicts, self-update, copy of a copy); '
             'random histories of 4-40 (thorough up to 300) calls. Non-trivial = at least one eviction happened in '
             'the reference cache; distinct = distinct whole case.')
     ASSUMPTIONS = ['keys are hashable with == consistent with hash; values are compared with ==',
-                   'on_miss is a pure function of the key: it neither raises nor touches the cache',
+                   'on_miss is a function of the key that does not touch the cache; it may return, raise KeyError or raise another exception (ValueError in the generators)',
                    'max_size is an int >= 1 and is not reassigned after construction',
                    'one thread (C03 covers concurrency); update() is not given another LRI/LRU as its argument']
     CORRESPONDENCE_NAME = 'C02.Driver (LRI/LRU model, C02.wstep) vs boltons.cacheutils.LRI/LRU'
@@ -178,7 +185,7 @@ class C02(Property):
     def configs(self, maxes):
         for cls in ('LRI', 'LRU'):
             for mx in maxes:
-                for om in (None, [2, 1]):
+                for om in (None, [2, 1], [2, 1, [0], [2]]):
                     yield cls, mx, om
 
     def cases(self, budget_s):
@@ -191,9 +198,9 @@ class C02(Property):
                 for hist in itertools.product(alpha, repeat=n):
                     yield self.probe(self.normalize(dict(base, ops=[list(o) for o in hist])))
         # (2) sampled from the space of 3..4(5)-call histories, pre-filled caches
-        n_samp = 60000 if self.thorough else 18000
+        n_samp = 60000 if self.thorough else 14000
         for _ in range(n_samp):
-            cls, mx, om = rng.choice(('LRI', 'LRU')), rng.choice((1, 2, 2, 3)), rng.choice((None, None, [2, 1]))
+            cls, mx, om = rng.choice(('LRI', 'LRU')), rng.choice((1, 2, 2, 3)), rng.choice((None, None, [2, 1], [2, 1, [1], [0]], [1, 0, [0, 1, 2], []]))
             alpha = self.small_alphabet(mx, True)
             n = rng.choice((3, 4, 5) if self.thorough else (3, 4))
             init = rng.choice([None, [[0, 1]], [[1, 2], [0, 3]], [[2, 1], [1, 1], [0, 1]]])
@@ -231,7 +238,11 @@ class C02(Property):
         mx = rng.choice((1, 2, 3, 4, 5)) if not big else rng.choice((3, 5, 8))
         nk = mx + rng.choice((1, 2, 3))
         km = rng.choice('ssn')
-        om = rng.choice((None, None, [rng.randint(0, 3), rng.randint(0, 3)]))
+        om = rng.choice((None, None, [rng.randint(0, 3), rng.randint(0, 3)], 'raise'))
+        if om == 'raise':
+            ke = [k for k in range(nk + mx) if rng.random() < 0.3]
+            ve = [k for k in range(nk + mx) if k not in ke and rng.random() < 0.15]
+            om = [rng.randint(0, 3), rng.randint(0, 3), ke, ve]
         nops = rng.randint(4, 40) if not big else rng.randint(40, 300)
         init = None if rng.random() < 0.6 else self.rand_pairs(rng, nk, rng.random() < 0.5, 0, mx + 2)
         ops = []
@@ -297,8 +308,8 @@ class C02(Property):
             cls = rng.choice(('LRI', 'LRU'))
             mx = rng.randint(1, 4)
             km = rng.choice('sn')
-            om = rng.choice((None, None, [1, 1]))
             nk = mx + 3
+            om = rng.choice((None, None, [1, 1], [1, 1, [k for k in range(nk) if rng.random() < 0.4], [rng.randrange(nk)]]))
             order = list(range(nk))
             rng.shuffle(order)
             fill = order[:mx]
@@ -345,9 +356,17 @@ class C02(Property):
             yield self.probe(self.normalize({'cls': cls, 'max': mx, 'om': om, 'km': km, 'nk': nk, 'init': init, 'ops': ops}))
 
     # ------------------------------------------------------------------ model line
+    @staticmethod
+    def om_txt(om):
+        if om is None:
+            return '-'
+        if len(om) == 2:
+            return '%d,%d' % tuple(om)
+        return '%d,%d/%s/%s' % (om[0], om[1], '.'.join(map(str, om[2])) or '-', '.'.join(map(str, om[3])) or '-')
+
     def line(self, case):
         toks = ['1' if case['cls'] == 'LRU' else '0', str(case['max']),
-                '-' if case['om'] is None else '%d,%d' % tuple(case['om']), str(case['nk']),
+                self.om_txt(case['om']), str(case['nk']),
                 pairs_txt(case['init'] or [])]
         for op in case['ops']:
             name, i = op[0], op[1]
@@ -403,11 +422,16 @@ class C02(Property):
         calls = []
         om = None
         if case['om'] is not None:
-            a, b = case['om']
+            a, b = case['om'][:2]
+            ke, ve = case['om'][2:] if len(case['om']) > 2 else ([], [])
 
             def om(key):
                 k = dec_key(km, key)
                 calls.append(k)
+                if k in ke:
+                    raise KeyError(key)
+                if k in ve:
+                    raise ValueError(key)
                 return enc_val(a * k + b) if isinstance(k, int) else None
         recs = []
         world = []
@@ -629,9 +653,11 @@ class C02(Property):
                 r.assign(a[0], a[1])
             elif name in LOOKUPS:
                 dflt = a[1] if len(a) > 1 else 0
-                found, v, exp_calls = r.lookup(a[0])
+                found, v, exp_calls, om_exc = r.lookup(a[0])
                 if found:
                     exp_ret = ['val', v]
+                elif om_exc is not None and om_exc != 'KeyError':
+                    exp_exc = om_exc          # propagates out of c[k], get and setdefault alike
                 elif name == 'getitem':
                     exp_exc = 'KeyError'
                 else:
@@ -758,7 +784,7 @@ class C02(Property):
                     ex = st.setdefault('exceptions', {})
                     ex[rec['exc']] = ex.get(rec['exc'], 0) + 1
             cf = st.setdefault('configs', {})
-            ck = '%s/max%d/%s/%s' % (case['cls'], case['max'], 'om' if case['om'] else 'no-om', case['km'])
+            ck = '%s/max%d/%s/%s' % (case['cls'], case['max'], ('om-raises' if len(case['om']) > 2 else 'om') if case['om'] else 'no-om', case['km'])
             cf[ck] = cf.get(ck, 0) + 1
             return None
         return refs
@@ -792,6 +818,10 @@ class C02(Property):
             yield dict(case, km='s')
         if case['om'] is not None:
             yield dict(case, om=None)
+            if len(case['om']) > 2:
+                yield dict(case, om=case['om'][:2])
+                if case['om'][3]:
+                    yield dict(case, om=case['om'][:3] + [[]])
 
 
 PROPERTY = C02
